@@ -50,15 +50,6 @@ var c11ParamsSchema = arrow.NewSchema([]arrow.Field{
 	{Name: "rec", Type: arrow.BinaryTypes.String},
 }, nil)
 
-// scriptHeader is the stream header the scripted methods return.
-type scriptHeader struct {
-	N int64 `vgirpc:"n"`
-}
-
-var scriptHeaderSchema = arrow.NewSchema([]arrow.Field{{Name: "n", Type: arrow.PrimitiveTypes.Int64}}, nil)
-
-func (h *scriptHeader) ArrowSchema() *arrow.Schema { return scriptHeaderSchema }
-
 func c11Handler(dynamic bool) func(context.Context, *vgirpc.CallContext, c11Params) (*vgirpc.StreamResult, error) {
 	return func(_ context.Context, cc *vgirpc.CallContext, p c11Params) (*vgirpc.StreamResult, error) {
 		for i := int64(0); i < p.ILogs; i++ {
